@@ -1,6 +1,6 @@
 CHECK = dict(
     engine="loop", design_ref="4 / the connection and event-loop model (C07)",
-    text="""Coq theorem fd_ok_but_stale_del over every input stream (ledger of owned descriptors; every loop system call names an owned descriptor; close removes it), refutation witness for the stale-event epoll_ctl(DEL); plus replay of real traces, a whole-process descriptor ledger over all threads and a leak check when Run returns.""",
+    text="""Coq theorem fd_ok_but_stale_del over every input stream (ledger of owned descriptors; every loop system call names an owned descriptor; close removes it), refutation witness for the stale-event epoll_ctl(DEL); conn.processIO regenerated from the source and proved equal to the model's dispatch (genloop); plus replay of real traces, a whole-process descriptor ledger over all threads and a leak check when Run returns.""",
     note="Proof is about the hand-written model coq/Model/Loop.v (kernel, handler and other goroutines are universally quantified inputs); "
          "the tie to /repo is the per-run trace correspondence through the vunix shim. Kernel stream semantics assumed (monitors in the model state the contract). Runs cover the default, gc_opt and poll_opt builds, server and client side, 1-4 loops (loop 0 modelled, the others judged by the direct oracles).",
     technique="Coq invariant proofs over a big-step interpreter of the event loop + executable trace checkers + differential replay of real engine runs",
